@@ -28,7 +28,7 @@ ASSUMPTIONS = ['failpoints sit at python-level step boundaries; a crash inside o
                'a hung pool after a dead worker is killed by the watchdog and judged on the files it left (no liveness claim)',
                'the clean run must report success, otherwise the case is inconclusive']
 MIN_NONTRIVIAL = {'quick': 50, 'thorough': 1500}
-REQUIRED_MONITORS = ['trace:steps_recorded', 'fault:fired', 'fault:raise', 'fault:exit', 'fault:kill', 'fault:persistent', 'history:stale_success_of_earlier_run', 'layout:more_than_100_small_contigs', 'layout:more_than_500_large_contigs', 'layout:last_small_contig_holds_supplementary_records_only', 'option:skip_contig', 'fault:class:OSError', 'fault:class:RuntimeError', 'oracle:status_read', 'oracle:success_verified',
+REQUIRED_MONITORS = ['trace:steps_recorded', 'fault:fired', 'fault:raise', 'fault:exit', 'fault:kill', 'fault:persistent', 'history:stale_success_of_earlier_run', 'layout:more_than_100_small_contigs', 'layout:more_than_500_large_contigs', 'layout:last_small_contig_holds_supplementary_records_only', 'option:skip_contig', 'names:runs', 'names:success_reported', 'names:refused_or_failed_without_success_marker', 'fault:class:OSError', 'fault:class:RuntimeError', 'oracle:status_read', 'oracle:success_verified',
                      'clean:success', 'pipeline:single', 'pipeline:multi', 'fault:in_worker']
 SHARD_TIMEOUT = {'quick': 1200, 'thorough': 14400}
 SUCCESS = 'Reached end. All ok!'
@@ -52,6 +52,9 @@ def gen_cases(tier, seed):
     for k, method in enumerate(('nla', 'chic') if tier == 'thorough' else (('chic', 'nla')[seed % 2],)):
         cases.append({'cfg': 95 + k, 'method': method, 'multi': True, 'size': 0, 'part': 0, 'parts': 1, 'seed': seed, 'tier': tier, 'many_contigs': True,
                       'many_large': True})
+    # output names in the forms users type them: other letter case of the extension, dots and spaces in directory names
+    for k in range(3 if tier == 'quick' else 12):
+        cases.append({'kind': 'output_names', 'cfg': 70 + k, 'method': ('nla', 'chic')[k % 2], 'multi': bool((k // 2) % 2), 'seed': seed, 'tier': tier})
     return cases
 
 
@@ -135,7 +138,58 @@ def verify_output(out, expect_ids):
     return True, ''
 
 
+def run_output_names(case):
+    """Whatever the output is called: after the run, a file that says the run finished successfully exists only next to a complete, sorted, indexed
+    output. A name the tool does not accept has to be refused (no success marker anywhere)."""
+    acc = Acc()
+    r = rng(case['seed'], 'C20', 'names', case['cfg'])
+    method, multi = case['method'], case['multi']
+    gen, recs, truths = F.simulate_library(r, method=method, contigs=[('chr1', 20000), ('chr2', 9000)], n_cells=2, n_sites=4, umis_per_site=(1, 2), copies=(1, 2),
+                                           case_id=900 + case['cfg'], n_unmapped=1)
+    expect = Counter()
+    for rec in recs:
+        expect[(F.id_from_name(rec['name']), 2 if rec['flag'] & 128 else 1)] += 1
+    with Scratch('c20n') as dd:
+        bam = write_bam(os.path.join(dd, 'in.bam'), gen.refs, recs)
+        for oi, oname in enumerate(['tagged.BAM', 'tagged.Bam', 'run.1/tag.ged.bam', 'my out/tagged.bam', 'tagged.bam.bam', 'TAGGED.bam'][case['cfg'] % 2::2]):
+            sub = os.path.join(dd, f'o{oi}')
+            out = os.path.join(sub, oname)
+            os.makedirs(os.path.dirname(out))
+            spec = {'bam': bam, 'method': method, 'multiprocess': multi, 'threads': 2, 'temp': sub, 'out': out, 'trace_file': os.path.join(sub, 'trace.jsonl'), 'fault': None}
+            rc, hung = run_driver(spec, sub, f'n{oi}', timeout=300)
+            acc.evals += 1
+            acc.count('names:runs')
+            markers = []
+            for root_, _, files_ in os.walk(sub):
+                for fn_ in files_:
+                    p_ = os.path.join(root_, fn_)
+                    if fn_.endswith('.jsonl') or fn_.startswith('spec_'):
+                        continue
+                    try:
+                        with open(p_, 'rb') as fh:
+                            head = fh.read(4096)
+                    except OSError:
+                        continue
+                    if SUCCESS.encode() in head:
+                        markers.append(p_)
+            acc.count('oracle:status_read')
+            if not markers:
+                acc.count('names:refused_or_failed_without_success_marker')
+                continue
+            acc.count('names:success_reported')
+            ok, why = verify_output(out, expect)
+            acc.count('oracle:success_verified')
+            if not ok:
+                acc.violate('success-marker-but-output-bad:output-name', f'-o {oname!r}: {os.path.relpath(markers[0], sub)} says the run finished successfully but {why} '
+                                                                         f'(method {method}, multiprocess {multi})', {'output_name': oname, 'marker': os.path.relpath(markers[0], sub)})
+            acc.sigs.add(f"names/{case['cfg']}/{oname}")
+    acc.sample = {'output_names': True, 'method': method, 'multiprocess': multi}
+    return acc
+
+
 def run_case(case):
+    if case.get('kind') == 'output_names':
+        return run_output_names(case)
     acc = Acc()
     r = rng(case['seed'], 'C20', case['cfg'])
     method, multi = case['method'], case['multi']
